@@ -210,8 +210,6 @@ def classify(src, viol, findings):
 def run(chk):
     quick = chk.tier == "quick"
     rng = chk.rng
-    if not chk.findings and os.path.exists(KF_FALLBACK):
-        chk.findings = json.load(open(KF_FALLBACK))      # TEMPORARY fallback until the lead merges build/kf-C11.json
     chk.trusted = [
         "Coq 8.16.1 kernel (coqc; vm_compute for closed facts and for evaluating the model in the correspondence run)",
         "hand model coq/Lex/Chars.v + coq/Lex/Layout.v of the lexer (tied by correspondence on token classes, byte spans, error classes)",
